@@ -4,9 +4,11 @@
   list of operations (`Op`: register / renew / take-over, transfer, set-controller, update-resolve,
   update-details, place / cancel / complete sell order, purchase, place / raise / cancel / accept buy
   order, RollApp creation, alias registration and trading, time advance, trading switches, reserved
-  aliases), or for every single accepted operation on any state that satisfies the invariant.
+  aliases, RollApp ownership transfer of x/rollapp, and the governance paths: chain-id migration,
+  alias update, parameter update), or for every single accepted operation on any state that satisfies
+  the invariant.
 -/
-import DymVerif.Lemmas.DymNSCfg
+import DymVerif.Lemmas.DymNSLit
 import DymVerif.Lemmas.DymNSBoIdx
 import DymVerif.Lemmas.GenEqDymNS
 namespace DymVerif.C17
@@ -123,6 +125,7 @@ theorem owner_change_authorised {s s' : State} {op : Op} (hI : Inv s) (h : exec 
     | purchase a offer so hso hsel hse he hna => exact Or.inl ⟨he, Or.inr ⟨so, hso, hsel⟩⟩
     | complete a so b hso hsel hb he ha => exact Or.inl ⟨he, Or.inr ⟨so, hso, hsel⟩⟩
     | accept pfx id m bo hg hna hn he hso hb => exact Or.inl ⟨he, Or.inl rfl⟩
+    | migrate m he hnd => exact absurd rfl hne
 
 /-- corollary: **nobody but the previous owner re-registers a name during the grace period** -/
 theorem no_takeover_in_grace {s s' : State} {op : Op} (hI : Inv s) (h : exec s op = .ok s') {n : Name}
@@ -133,13 +136,14 @@ theorem no_takeover_in_grace {s s' : State} {op : Op} (hI : Inv s) (h : exec s o
   · exact hg
 
 /-- corollary: while the owner stays the same, the address records of an unexpired name change
-    only on the controller's signature (the only other case the model cannot exclude is the
-    completion of a sell order whose highest bidder is the owner, which hands the name to the
-    owner again and clears it) -/
+    only on the controller's signature — or by the governance chain-id migration, which rewrites
+    chain-ids only (`migration_changes_only_chain_ids`).  (A completed sell order always changes the
+    owner: the invariant records that the highest bidder of an open order is never the owner —
+    `MsgPurchaseOrder` refuses the owner's bid and the owner cannot change while the order is open.) -/
 theorem address_records_by_controller {s s' : State} {op : Op} (hI : Inv s) (h : exec s op = .ok s') {n : Name}
     {d d' : DymName} (hd : getName s n = some d) (hd' : getName s' n = some d') (ho : d'.owner = d.owner)
     (hc : d'.configs ≠ d.configs) (hexp : d.expired s.now = false) :
-    op.actor = d.controller ∨ op = .completeName d.owner n := by
+    op.actor = d.controller ∨ ∃ m, op = .migrateChainIds m := by
   obtain ⟨d'', hd'', hch⟩ := name_change hI h hd
   rw [hd'] at hd''; injection hd'' with hd''; subst hd''
   rcases hch with rfl | hch
@@ -154,11 +158,24 @@ theorem address_records_by_controller {s s' : State} {op : Op} (hI : Inv s) (h :
     | updateDetails c cl cfgs contact he hcf => exact Or.inl rfl
     | purchase a offer so hso hsel hse he hna => exact absurd ho hna
     | complete a so b hso hsel hb he ha =>
+      exfalso
       simp only [cleared] at ho
-      rcases ha with rfl | rfl
-      · exact Or.inr rfl
-      · rw [ho]; exact Or.inr rfl
+      obtain ⟨d1, hd1, _, _, hbid⟩ := hI.so n so hso
+      have : d1 = d := by
+        have hd0 : s.ns.get n = some d := hd
+        rw [hd0] at hd1; exact (Option.some.inj hd1).symm
+      subst this
+      exact hbid b hb ho
     | accept pfx id m bo hg hna hn he hso hb => exact absurd ho hb
+    | migrate m he hnd => exact Or.inr ⟨m, rfl⟩
+
+/-- in every reachable state the highest bidder of an open Dym-Name sell order is not the owner of
+    the name, the order was placed by the owner and ends before the name does -/
+theorem open_order_of_the_owner (p : Params) (t : Nat) (ops : List Op) (n : Name) (so : SellOrder)
+    (h : AMap.get (run (State.start p t) ops).nameSO n = some so) :
+    ∃ d, getName (run (State.start p t) ops) n = some d ∧ so.expireAt < d.expireAt ∧ so.seller = d.owner ∧
+      ∀ b, so.bid = some b → b.bidder ≠ d.owner :=
+  (reachable_inv p t ops).so n so h
 
 /-! ## alias_bijection -/
 
@@ -225,6 +242,20 @@ theorem deposit_exact {s s' : State} {a : Acct} {n : Name} {offer : Nat} {cont :
                balOf s' a + (offer - bo.offer) = balOf s a ∧ AMap.get s'.bos id = some { bo with offer := offer }) :=
   placeNameBO_ledger h
 
+/-- **deposit only the difference when raising an offer on an alias**: a new offer escrows exactly
+    the offer, a raise exactly `offer - previous offer`; nobody else's balance moves; the buyer is the
+    owner of the destination RollApp, which differs from the alias' RollApp -/
+theorem deposit_exact_alias {s s' : State} {a : Acct} {l : AliasId} {offer : Nat} {cont : Option (Bool × Nat)} {dst : Chain}
+    (h : placeAliasBO s a l offer cont dst = .ok s') :
+    isCreator s dst a = true ∧ AMap.get s.al.aliasTo l ≠ some dst ∧ s.p.minOffer ≤ offer ∧
+    (∀ x, x ≠ a → balOf s' x = balOf s x) ∧
+    (match cont with
+     | none => balOf s' a + offer = balOf s a ∧
+               AMap.get s'.bos (s.boCount + 1) = some ⟨true, l, dst, a, offer, 0⟩
+     | some (_, id) => ∃ bo, AMap.get s.bos id = some bo ∧ bo.buyer = a ∧ bo.isAlias = true ∧ bo.asset = l ∧ bo.offer < offer ∧
+               balOf s' a + (offer - bo.offer) = balOf s a ∧ AMap.get s'.bos id = some { bo with offer := offer }) :=
+  placeAliasBO_ledger h
+
 /-- **sale_exact (accepted buy order)** -/
 theorem sale_exact_accept {s s' : State} {a : Acct} {pfx : Bool} {id : Nat} {bo : BuyOrder}
     (hg : AMap.get s.bos id = some bo) (hna : bo.isAlias = false) (h : acceptBO s a pfx id bo.offer = .ok s') :
@@ -280,7 +311,8 @@ theorem sale_exact_accept_alias {s s' : State} {a : Acct} {pfx : Bool} {id : Nat
     resolution of its value on its chain -/
 theorem resolve_agree_complete (p : Params) (t : Nat) (ops : List Op) (n : Name) (d : DymName) (c : Config)
     (hl : getNameLive (run (State.start p t) ops) n = some d) (hc : c ∈ d.configs) :
-    (c.path, n, prettyChain (run (State.start p t) ops) c.chain) ∈ reverse (run (State.start p t) ops) c.value c.chain :=
+    (c.path, n, prettyChain (run (State.start p t) ops) (cfgText c.chain)) ∈
+      reverse (run (State.start p t) ops) c.value (cfgText c.chain) :=
   reverse_complete (reachable_inv p t ops).idx hl hc
 
 /-- every reachable state also keeps the (chain, path) identities of each name's records distinct and
@@ -302,6 +334,7 @@ theorem reachable_cfgOK (p : Params) (t : Nat) (ops : List Op) : CfgOK (run (Sta
 theorem resolve_agree_partial (p : Params) (t : Nat) (ops : List Op)
     (hPW : ParamsWF (run (State.start p t) ops).p) (addr : Addr) (wc : Chain) (path : Path) (n : Name)
     (hm : (path, n) ∈ reverseRaw (run (State.start p t) ops) addr wc)
+    (hNL : NoLitName (run (State.start p t) ops) n)
     (hFb : (revByConfig (run (State.start p t) ops) addr wc).isEmpty = true →
       (wc = 0 ∧ addr.hrp = 0) ∨
       (wc ≠ 0 ∧ rollappHrp (run (State.start p t) ops) wc ≠ 0 ∧ addr.hrp = rollappHrp (run (State.start p t) ops) wc ∧
@@ -331,7 +364,7 @@ theorem resolve_agree_partial (p : Params) (t : Nat) (ops : List Op)
         exact revByFallback_sound_partial hU hH hP hwc hR hpre hfmt hNo hm
   · have : (!(revByConfig (run (State.start p t) ops) addr wc).isEmpty) = true := by simpa using he
     simp only [this, if_true] at hm
-    exact revByConfig_sound hU hH hP hm
+    exact revByConfig_sound hU hNL hH hP hm
 
 def cxParams : Params :=
   { tradeName := true, tradeAlias := true, grace := 100, soDur := 10, minOffer := 1, bidInc := 0,
